@@ -249,7 +249,10 @@ def _keep_frames(sc, keep: list[int]) -> None:
     fr["offsets"] = [fr["offsets"][i] for i in keep]
     ks = set(keep)
     if fr.get("split"):
-        fr["split"] = [m for m in (len([i for i in p if i in ks]) for p in part) if m > 0]
+        counts = [len([i for i in p if i in ks]) for p in part]
+        if fr.get("per_file"):
+            fr["per_file"] = [pf for pf, m in zip(fr["per_file"], counts) if m > 0]
+        fr["split"] = [m for m in counts if m > 0]
     for c in ("amp_u", "amp_v"):
         if sc["flow"].get(c):
             sc["flow"][c] = [sc["flow"][c][i] for i in keep]
